@@ -50,6 +50,8 @@ class Effects:
         self.uni = uni
         self.funcs = list(repo.all_functions()) + list(extra_funcs)
         self.mut = {}      # fi.key -> set of parameter names mutated
+        self.direct = {}   # fi.key -> parameters written in the body itself
+        self.via = {}      # (fi.key, param) -> {(callee key, callee param)}
         self.self_mut = {}  # method name -> [FuncInfo] that store into self
         self._solve()
 
@@ -77,16 +79,35 @@ class Effects:
                     for t in env.ev(w.target).tags:
                         if t[0] in ('param', 'derived'):
                             cur.add(t[1])
+                            self.direct.setdefault(fi.key, set()).add(t[1])
                 for call, callee, amap in self.calls(fi):
                     for pname, actual in amap.items():
                         if pname in self.mut.get(callee.key, ()):
                             for t in env.ev(actual).tags:
                                 if t[0] in ('param', 'derived'):
                                     cur.add(t[1])
+                                    self.via.setdefault(
+                                        (fi.key, t[1]), set()).add(
+                                        (callee.key, pname))
                 if len(cur) != n0:
                     changed = True
             if not changed:
                 break
+
+    def excepted(self, key, pname, exceptions, _seen=None):
+        """(function, parameter) is a reviewed exception, or writes through
+        the parameter only by handing it to one."""
+        if (key, pname) in exceptions:
+            return True
+        seen = _seen or set()
+        if (key, pname) in seen:
+            return False
+        seen.add((key, pname))
+        if pname in self.direct.get(key, ()):
+            return False
+        vias = self.via.get((key, pname))
+        return bool(vias) and all(
+            self.excepted(k, q, exceptions, seen) for k, q in vias)
 
     def calls(self, fi):
         """(call, callee FuncInfo, {callee param name: actual expr})"""
@@ -233,7 +254,7 @@ def check_r09a(repo, rep, uni, eff, scope, prefix=''):
         for call, callee, amap in eff.calls(fi):
             for pname, actual in amap.items():
                 if pname in eff.mut.get(callee.key, ()):
-                    if (callee.key, pname) in R09A_EXCEPTIONS:
+                    if eff.excepted(callee.key, pname, R09A_EXCEPTIONS):
                         continue    # reviewed at the callee
                     bad = data_tags(env.ev(actual).tags)
                     nsites += 1
